@@ -49,6 +49,7 @@ func (fg *FnGen) leafApply(fr *Frame, f *ssa.Function, args []*Term, st *State) 
 	fg.noDefs = true
 	fg.fresh++
 	sub := fg.newFrame(f, fr.depth+1, fmt.Sprintf("%sleaf#%d~%s~", fr.prefix, fg.fresh, f.Name()))
+	sub.stack = append(append([]*ssa.Function{}, fr.stack...), f)
 	for i, p := range f.Params {
 		sub.vals[p] = params[i]
 	}
